@@ -19,9 +19,16 @@ ClassesOf(sl) == UNION {UNION {ClassesOfCmp(sl[i][j].cmp) : j \in 1..Len(sl[i])}
 IsComplexList(sl) == \E i \in 1..Len(sl) : Len(sl[i]) > 1
 \* Sass writes a complex extender in place of the target without omitting anything when no weaving is needed: the rule's own
 \* selector has single-compound complexes only and no complex extender is itself extended (no second-round weaving)
+\* classes mentioned inside the :not()/:is() arguments of a selector list's compounds
+PseudoArgClasses(sl) == UNION {UNION {UNION {ClassesOf(sl[i][j].cmp.nots[k]) : k \in 1..Len(sl[i][j].cmp.nots)}
+                                        \cup UNION {ClassesOf(sl[i][j].cmp.iss[k]) : k \in 1..Len(sl[i][j].cmp.iss)}
+                                      : j \in 1..Len(sl[i])} : i \in 1..Len(sl)}
+\* an extender that mentions another extension's target only inside a selector pseudo (':is(.x, b) {@extend %p}' with '.y {@extend .x}')
+\* is not re-extended by the reference algorithm (extensions are indexed by the extender's top-level simple selectors): left open
+PseudoChained(r) == \E i \in 1..Len(r.exts) : \E j \in 1..Len(r.exts) : r.exts[j].target \in PseudoArgClasses(r.exts[i].extender)
 ExactDue(r) ==
-  \/ r.compoundonly
-  \/ /\ ~IsComplexList(r.sel)
+  \/ (r.compoundonly /\ ~PseudoChained(r))
+  \/ /\ ~IsComplexList(r.sel) /\ ~PseudoChained(r)
      /\ \A i \in 1..Len(r.exts) : IsComplexList(r.exts[i].extender) =>
            \A j \in 1..Len(r.exts) : r.exts[j].target \notin ClassesOf(r.exts[i].extender)
 
